@@ -39,15 +39,32 @@ Definition nonlin_code (kind : nat) (alpha : float) (es : list fexp) (maxiter : 
   let func := ffield es in
   let f0 := vnorm Fops (func x0) in
   let '(out, vs) := run_nonlin kind alpha es maxiter f_tol f_rtol x_tol x_rtol x0 in
-  let thin := existsb (fun v => PrimFloat.ltb (check_margin f_tol f_rtol x_tol x_rtol f0 (v_x v) (func (v_x v)) (v_dx v)) 0x1p-20) vs in
-  if thin then 2%nat
+  (* thin: a stopping decision within 2^-20 of its threshold, or an iterate that is a root up to rounding
+     (the exact-zero tests `dx_norm == 0`, `y_norm == 0` then depend on the last bit) *)
+  let thin := existsb (fun v => PrimFloat.ltb (check_margin f_tol f_rtol x_tol x_rtol f0 (v_x v) (func (v_x v)) (v_dx v)) 0x1p-20
+                               || PrimFloat.ltb (v_ynorm v) (PrimFloat.mul 0x1p-36 (PrimFloat.add 1 (vnorm Fops (v_x v))))) vs in
+  (* sensitivity: quasi-Newton recurrences amplify rounding differences; compare only runs that the model
+     itself reproduces (same outcome kind, same number of evaluations, points within 2^-26) when the
+     initial guess moves by one part in 2^40 *)
+  (* the best-iterate book-keeping compares residual norms with `<`: near-ties depend on the last bit *)
+  let best_tie := fst (fold_left (fun (acc : bool * float) v =>
+                    let '(tie, best) := acc in
+                    (tie || PrimFloat.ltb (relgap (v_ynorm v) best) 0x1p-20 || PrimFloat.eqb (v_ynorm v) best,
+                     if PrimFloat.ltb (v_ynorm v) best then v_ynorm v else best)) vs (false, f0)) in
+  let thin := thin || best_tie in
+  let x0p := map (fun v => PrimFloat.mul v 0x1.0000000001p+0) x0 in
+  let '(outp, vsp) := run_nonlin kind alpha es maxiter f_tol f_rtol x_tol x_rtol x0p in
+  let kind_of := fun (r : outcome (T := float)) => match r with Converged _ => 0%nat | Exhausted _ => 1%nat | ZeroStep => 2%nat end in
+  let insensitive := Nat.eqb (kind_of out) (kind_of outp) && Nat.eqb (length vs) (length vsp) &&
+                     traj_close 0x1p-26 0x1p-36 (map (fun v => v_x v) vs) (map (fun v => v_x v) vsp) in
+  if thin || negb insensitive then 2%nat
   else
     let pts := x0 :: map (fun v => v_x v) vs in
-    let same_pts := traj_close 0x1p-30 0x1p-40 pts evals in
+    let same_pts := traj_close 0x1p-22 0x1p-32 pts evals in
     match out with
     | ZeroStep => 3%nat
-    | Converged r => if negb warned && vclose 0x1p-30 0x1p-40 r result && same_pts then 1%nat else 0%nat
-    | Exhausted b => if warned && vclose 0x1p-30 0x1p-40 b result && same_pts then 1%nat else 0%nat
+    | Converged r => if negb warned && vclose 0x1p-22 0x1p-32 r result && same_pts then 1%nat else 0%nat
+    | Exhausted b => if warned && vclose 0x1p-22 0x1p-32 b result && same_pts then 1%nat else 0%nat
     end.
 
 (* gd on f = sum_i e_i(x)^2 / 2 ... the objective and gradient are given as expressions *)
